@@ -139,7 +139,7 @@ def run(scn, H, execu):
     # mirror run: only meaningful where the documented law is odd in (D, w):
     # motors with current data, full-density scripted duty history
     rules = scn.get('rules', [])
-    if scn.get('profile') != 'motor' or v.mot.get('i0') is None or \
+    if scn.get('profile') != 'motor' or rm.motor_dlim(v.mot) is None or \
             len(rules) != 1 or rules[0]['kind'] != 'Scripted' or v.aborted:
         return H, out, st
     m = mirrored(scn)
